@@ -33,6 +33,13 @@ class Opts:
         self.__dict__.update(k)
 
 
+def fault_errno(rng, t):
+    """A receive / send failure with one of the errnos the code under test handles as a network error (its own
+    NET_ERRS); the bare 'x' (a reset) stays in the mix."""
+    errs = sorted(int(e) for e in getattr(t.ssnet, 'NET_ERRS', []))
+    return rng.choice(['x'] + ['x%d' % e for e in errs])
+
+
 def payload(rng, n, tag):
     # distinct content per flow/direction so cross-talk is visible
     base = bytes([(tag * 37 + i * 7 + 1) % 251 for i in range(min(n, 251))])
@@ -64,8 +71,12 @@ class Scenario:
     def do(self, st, internal=False):
         if self.stop:
             return
+        if st[0] == 'deliver' and len(st) > 3:
+            internal = True
         if st[0] == 'deliver' and not internal:
             self.bare.add(st[1])
+        if st[0] == 'deliver' and internal and len(st) == 3:
+            st = st + ('internal',)
         src = None
         if st[0] == 'round':
             src = self.t.smux if st[1] == 'c' else self.t.cmux
@@ -87,7 +98,7 @@ class Scenario:
             if (mu1 == mu0 and st[3] == 'auto' and st[4].text() == 'ok d65536 s65536 0' and not mux.too_full
                     and not self.bare and not (n0 > 0 and len(src.outbuf) == n0)):
                 if n0 > 0 or not self.t.end_quiet(st[1]):
-                    self.idle_bad.append((len(self.s.ins), st[1], n0))
+                    self.idle_bad.append((len(self.s.ins), st[1], n0, self.t.show()))
         if src is not None and len(src.outbuf) < n0:
             # frames really arrived in that pass: the real loop gave every Proxy of that end its callback after them
             self.bare.discard(st[1])
@@ -137,9 +148,9 @@ class Scenario:
             if o.faults and rng.random() < 0.15:
                 k = rng.choice(['recv', 'send', 'send-epipe', 'shut'])
                 if k == 'recv':
-                    recv = 'x'
+                    recv = fault_errno(rng, t)
                 elif k == 'send':
-                    send = 'x'
+                    send = fault_errno(rng, t)
                 elif k == 'send-epipe':
                     send = 'p'
                 else:
@@ -178,7 +189,8 @@ class Scenario:
             recv, send, shut_err = rng.choice(RECV_OK), rng.choice(SEND_OK), False
             if o.faults and rng.random() < 0.3:
                 kind = rng.choice(['recv', 'send', 'send-epipe'])
-                recv, send = ('x', send) if kind == 'recv' else (recv, 'x' if kind == 'send' else 'p')
+                fe = fault_errno(rng, t)
+                recv, send = (fe, send) if kind == 'recv' else (recv, fe if kind == 'send' else 'p')
                 for k in ready:
                     self.faulty.add(k)
                 self.nontrivial.add('fault-in-round')
@@ -378,11 +390,11 @@ def oracle_quiet(ctx, sc, prop):
         sc.mu_bad = []
         return False
     if getattr(sc, 'idle_bad', None):
-        at, end, n0 = sc.idle_bad[0]
+        at, end, n0, state = sc.idle_bad[0]
         report(ctx, sc, '%s:work:idle-pass-leaves-work' % prop, 0, 'pass of end %s ending at script line %d' % (end, at),
                'a pass of the real loop that does not lower the measure leaves no frame on its way to that end and '
                'every handler of that end quiet (C02_pass_without_progress_is_quiet)',
-               '%d frame(s) waiting; handlers quiet: %s' % (n0, t.end_quiet(end)))
+               '%d frame(s) waiting and/or a handler of that end not quiet, in state %s' % (n0, state))
         sc.idle_bad = []
         return False
     if t.died or t.cmux.outbuf or t.smux.outbuf:
@@ -481,6 +493,31 @@ def decode_steps(enc):
             return [dec(y) for y in x]
         return x
     return [tuple(dec(st)) for st in enc]
+
+
+def replay_work(case):
+    """Re-run the recorded real-code steps through a Scenario, whose `do` holds every real pass of the loop to
+    C02_bounded_work and C02_pass_without_progress_is_quiet; returns (still fails, what was seen)."""
+    import random
+    cfg = case['script'][0].split()
+    o = Opts(maxchan=int(cfg[1]), bufsize=int(cfg[2]), chani=int(cfg[3]))
+    sc = Scenario(random.Random(0), o)
+    try:
+        for st in decode_steps(case['steps']):
+            sc.do(st)
+            if sc.stop or sc.mu_bad or sc.idle_bad:
+                break
+        if sc.t.died:
+            return True, 'process died: %s' % sc.t.died
+        if sc.mu_bad:
+            return True, 'a pass changed the state without lowering the measure: %d -> %d' % sc.mu_bad[0][1:3]
+        if sc.idle_bad:
+            at, end, n0, state = sc.idle_bad[0]
+            return True, ('a pass of end %s did not lower the measure although %d frame(s) were waiting and/or a handler '
+                          'was not quiet: %s' % (end, n0, state))
+        return False, 'every pass of the loop either lowers the measure or leaves its end quiet'
+    finally:
+        sc.close()
 
 
 def report(ctx, sc, key, flow, where, expected, observed):
@@ -650,7 +687,7 @@ def burst_in_one_read(ctx, rng, prop, nwrites, bufsize=32768, latency=False, dst
         sc.close()
 
 
-def failure_tears_down(ctx, rng, prop, which, fault):
+def failure_tears_down(ctx, rng, prop, which, fault, err='x'):
     """An endpoint fails (reset on receive / error on send) while the other endpoint stays idle and never closes:
     both tunnel ends must still shut their sockets, drop the handler and free the id."""
     o = Opts(nflows=1, steps=0)
@@ -669,7 +706,7 @@ def failure_tears_down(ctx, rng, prop, which, fault):
         sc.drain()
         sc.faulty.add(0)
         if fault == 'recv':
-            sc.do(('cb', near, 0, Io('ok', 'x', 's65536', False)))
+            sc.do(('cb', near, 0, Io('ok', err, 's65536', False)))
         else:
             other = 'dst' if which == 'app' else 'app'
             sc.env_write(0, other, payload(rng, 50, 3))       # something to send towards the failing endpoint
@@ -678,7 +715,7 @@ def failure_tears_down(ctx, rng, prop, which, fault):
             srcq = t.cmux if far == 'c' else t.smux
             while srcq.outbuf and not sc.stop:
                 sc.do(('deliver', near, 'ok'))
-            sc.do(('cb', near, 0, Io('ok', 'a', 'x', False)))
+            sc.do(('cb', near, 0, Io('ok', 'a', err, False)))
         q = sc.drain()
         if not sc.stop and q:
             f = t.flows[0]
@@ -733,6 +770,45 @@ def stop_after_eof(ctx, rng, prop, which):
         if not sc.stop:
             oracle_eof_order(ctx, sc, prop, 'end')
             if q:
+                oracle_teardown(ctx, sc, prop)
+                oracle_quiet(ctx, sc, prop)
+            else:
+                report(ctx, sc, '%s:liveness:no-quiescence-within-bound' % prop, 0, 'drain', 'quiescent', 'still changing')
+        oracle_alive(ctx, sc, prop, 'run')
+        return sc.s.ins, sc.s.outs
+    finally:
+        sc.close()
+
+
+def connect_with_followers(ctx, rng, prop, nbytes, nflows=1):
+    """The application connects, sends `nbytes` (possibly none) and closes its sending side before the server has
+    heard of the connection: CONNECT, the data and the end-of-stream reach the server in ONE read of the tunnel.  The
+    handler `new_channel` creates in the middle of that pass must be served by the same pass (the frames that
+    followed its CONNECT are already handled: nothing else will wake it).  Real select-loop passes only."""
+    o = Opts(nflows=nflows, steps=0)
+    sc = Scenario(rng, o)
+    try:
+        t = sc.t
+        full = Io('ok', 'd65536', 's65536', False)
+        for i in range(nflows):
+            sc.do(('accept',))
+            if nbytes:
+                sc.env_write(i, 'app', payload(rng, nbytes, 11 + i))
+            sc.do(('ae', i))
+        for _ in range(3):
+            sc.do(('round', 'c', 0, 'auto', full))            # the client frames the data and the end-of-stream
+        sc.do(('round', 's', len(t.cmux.outbuf), 'auto', full))     # everything in one read at the server
+        q = sc.drain()
+        if not sc.stop:
+            oracle_complete(ctx, sc, prop, q)
+        for i in range(nflows):
+            sc.env_write(i, 'dst', payload(rng, 50, 21 + i))
+            sc.do(('de', i))
+        q = sc.drain()
+        if not sc.stop:
+            oracle_eof_order(ctx, sc, prop, 'end')
+            if q:
+                oracle_complete(ctx, sc, prop, q)
                 oracle_teardown(ctx, sc, prop)
                 oracle_quiet(ctx, sc, prop)
             else:
